@@ -20,7 +20,8 @@ RULE = ('histories over {peer PDU of each type, complete/partial/continuation P-
         'model state, DIMSE generator primitive}; both roles; exhaustive to a depth bound after '
         'each canonical prefix, seeded random walks beyond; quiescent stepping against R-fsm plus '
         'a concurrent mode with merge search; non-trivial = history reaches Sta6 or beyond or '
-        'contains a non-happy-path cell; distinct = distinct event sequences')
+        'contains a non-happy-path cell; distinct = distinct event sequences'
+        "; families: write faults, prestart bursts, PDUs+FIN bursts, causal (peer's abort/close arrives while a 10-fragment message is produced)")
 ASSUMPTIONS = ['R-fsm transcribed from PS3.8 Table 9-10', 'quiescence = 3 select periods without '
                'observable change (DESIGN 2.3)', 'ARTIM deadlines are never approached closer '
                'than 1 s by a non-expiring step (ordering near the deadline is not judged)']
